@@ -196,6 +196,10 @@ func VerifyPowershell(r io.ReadSeeker, style PsSigStyle, skipDigests bool) (*Pow
 			}
 			i := len(si.start)
 			j := len(lstr) - len(si.end) - 2
+			if j < i {
+				// prefix and suffix overlap
+				return nil, errors.New("malformed powershell signature")
+			}
 			lder, err := base64.StdEncoding.DecodeString(lstr[i:j])
 			if err != nil {
 				return nil, err
